@@ -157,7 +157,8 @@ def instLine (cur : Option Inst) (ws : List String) : Option Inst × String :=
         | .error _ => (none, "R panic")
         | .ok (i', obs, q) =>
           let qs := match op with | .tmrAnnounce .. => s!" q={q}" | _ => ""
-          (some i', showObs obs ++ qs ++ " | R ok | " ++ showState i')
+          let ls := String.join ((i.lockTrace op).map fun e => match e with | .r => "r." | .w => "w.")
+          (some i', showObs obs ++ qs ++ " | R ok | " ++ showState i' ++ " | L " ++ (if ls.isEmpty then "-" else ls))
 
 end Statime
 
